@@ -478,6 +478,15 @@ where
                 self.0.load_folders().await?;
             }
 
+            // Reloading summaries from storage (above, or for the
+            // flags of another folder) reads the name persisted
+            // before this merge so apply merged names afterwards
+            for event in &events {
+                if let WriteEvent::SetVaultName(name) = event {
+                    self.0.set_folder_name(folder_id, name, Internal)?;
+                }
+            }
+
             outcome.changes += len;
             outcome.tracked.add_tracked_folder_changes(
                 folder_id,
